@@ -20,6 +20,8 @@ import contextlib
 import errno
 import mmap
 import os
+import tokenize
+import zipfile
 
 import numpy as np
 
@@ -89,8 +91,10 @@ class NpyFileChunkStore(ChunkStore):
     """
 
     def __init__(self, path, direct_write=False):
+        # BadZipFile / TokenError: np.load on a file that is not NPY data at all
         super().__init__({IOError: ChunkNotFound, ValueError: ChunkNotFound,
-                          EOFError: ChunkNotFound})
+                          EOFError: ChunkNotFound, zipfile.BadZipFile: ChunkNotFound,
+                          tokenize.TokenError: ChunkNotFound})
         if not os.path.isdir(path):
             raise StoreUnavailable(f'Directory {path!r} does not exist')
         self.path = path
